@@ -135,10 +135,6 @@ def job_save(res, sc):
         for key, (addr, ty) in sorted(var.items()):
             want = EFF[key]
             lines = L.get(key, [])
-            if key == 'alpha0' and not zero_case:
-                # the synchrotron frequency overrides alpha0 (main derives alpha0 from it): any single alpha0 line reproduces the run
-                res.obs.append(Ob('scenario %d, %s: at most one alpha0 line (its value is overridden by the saved SynchrotronFrequency)' % (sc, case), 'holds' if len(lines) <= 1 else 'violated', key='save-value-alpha0'))
-                continue
             vals = [t for ln in lines for t in ln if t[0] in ('f32', 'f64', 'i')]
             ok_n = len(lines) == 1 and len(vals) == 1
             bad = z3.BoolVal(not ok_n)
